@@ -68,6 +68,29 @@ CHECKS["C12"] = dict(
     note="Trusted: the reference decoder in props/c12.py transcribed from IEC 62386-103 Table 3, -301 Table 2, -303, -304.",
     design="4/C12")
 
+CHECKS["C03"] = dict(
+    technique="table-driven differential: hand-transcribed IEC 62386 command tables + reference integer encoder vs "
+              "constructed frames, decoded names and class flags, over the complete argument product",
+    text="325 table rows (323 transcribed independently of the library, 2 pinned) x every legal destination / instance "
+         "byte / parameter (thorough: complete product, 3.06M cases; quick: complete for 324 rows, LightEvent sampled): "
+         "constructed frame == reference encoder bit for bit, reference frame decodes to the class of that name, and "
+         "sendtwice / answer kind / devicetype equal the row. A removed command is a violation; untabled library classes "
+         "are listed in evidence.",
+    note="Trusted: harness/ref_tables.py, a transcription from memory of IEC 62386-102/103/202/205/206/207/209/301/303/304 "
+         "(the standards' text is not in the sandbox); pinned rows only detect change. One unresolved disagreement "
+         "(StartAutoCalibration send-twice) is recorded in ref_tables.DISAGREEMENTS and DESIGN.md.",
+    design="4/C03")
+CHECKS["C08"] = dict(
+    technique="model-based testing of generator sequences against a frame-level IEC 62386-102 gear model; exhaustive "
+              "adversarial answer streams with a reference verdict function",
+    text="QueryDeviceTypes over every subset of {0,1,6,8,253} and generated lists over 0..253; QueryGroups over all 2^16 "
+         "group sets (thorough; stride 7 quick); SetGroups over a structured 2^8x2^8 subset of (current, requested) pairs x "
+         "five destination kinds with exact-difference check for short/int; every adversarial answer stream of length <= 6 "
+         "(quick: <= 5) over {none, error, 0, 1, 6, 7, 254, 255} with termination bound; fault cases for QueryGroups/SetGroups.",
+    note="Trusted: harness/model_gear.py (frame-level transcription of 102 addressing, groups, device-type query adjacency) "
+         "and the reference verdict function ref_types in props/c08.py.",
+    design="4/C08")
+
 NOT_BUILT_REASON = "check not built yet in this round (planned, see DESIGN.md section 4); not claimed until it is registered"
 
 
